@@ -661,3 +661,24 @@ func buildViaParser(r *rng.R, s *spec.Spec) any {
 
 func BuildList(r *rng.R, s *spec.Spec) at.List     { return Build(r, s).(at.List) }
 func BuildObject(r *rng.R, s *spec.Spec) at.Object { return Build(r, s).(at.Object) }
+
+// KindOfValue: the kind of a value as Get hands it out (nil, bool, int, float64, string, List, Object).
+func KindOfValue(v any) (spec.Kind, bool) {
+	switch v.(type) {
+	case nil:
+		return spec.Nil, true
+	case bool:
+		return spec.Bool, true
+	case int:
+		return spec.Int, true
+	case float64:
+		return spec.Float, true
+	case string:
+		return spec.Str, true
+	case at.List:
+		return spec.List, true
+	case at.Object:
+		return spec.Obj, true
+	}
+	return 0, false
+}
